@@ -23,24 +23,26 @@ TECHNIQUE = (
     "recording callable alias and by a real child process"
 )
 LEVEL_TEXT = (
-    "proof: Python literal evaluation (plain / r / f / fr x ' \" ''' \"\"\") is a Lean state machine; the literal the harness writes "
-    "(`render`, executed through the driver) is proved to evaluate to the intended string for ALL strings up to U+10FFFF incl. NUL, "
+    "proof (partial where the code is): Python literal evaluation (plain / r / f / fr x ' \" \'\'\' \"\"\") is a Lean state machine; the literal the "
+    "harness writes (`render`, executed through the driver) is proved to evaluate to the intended string for ALL strings up to U+10FFFF incl. NUL, "
     "lone surrogates, quotes, backslash runs, newlines, and all escaping choices (C04_literal_roundtrip); a raw literal's value is its "
     "body (C04_raw_verbatim). expandvars / expand_path are modelled from POSIX_ENVVAR_REGEX (translated and compared every run) and "
     "proved to be the identity without `$` / tilde-prefix (C04_expand_id) and on unset variables (C04_expandvars_unknown). The "
     "assembly (_subproc_cliargs, atom actions translated from the parser source, list_of_strs_or_callables, outer product, "
     "resolve_args_list, _fix_null_cmd_bytes) is proved: raw literal = one verbatim argument, non-raw = one argument = documented "
-    "expansion, @() injection verbatim / one per element / in place for ALL values, word count and order, macro text = one stripped "
-    "argument, alias argv = Popen argv without NUL. `a@(x)b` only partially (C04_adjacent_partial + two counterexamples: open finding). "
-    "Tie: generated atom lists -> source text -> real Execer.exec with a recording alias and a real child process; both argv's are "
-    "compared with the Lean model, with each other and with the property oracle (what was written)."
+    "expansion, @() injection verbatim / one per element / in place for ALL values, word count and order, alias argv = Popen argv "
+    "without NUL. PARTIAL + counterexample (open findings): `a@(x)b` (globbed / expanded), macro text (cut at U+000B/000C/001C-1E/0085/"
+    "2028/2029; parser crash after an extend atom), raw f-strings (expanded: the PEP 701 rule drops is_raw — dual-variant model driven "
+    "by the translated fact). Tie: generated atom lists -> source text -> real Execer.exec with a recording alias and a real child "
+    "process; both argv's are compared with the Lean model, with each other and with the property oracle (what was written)."
 )
 LEVEL_NOTE = (
     "Trusted: Lean kernel + standard axioms; harness; CPython (its own literal evaluation is the definition of `the string's Python "
-    "value`, `re`'s \\w classification, str(), os.fsdecode, os.path.expanduser's pwd lookups); the lexer's word splitting and the "
-    "execer's bare-line -> ![...] rewriting are tied by the streams, not modelled (three open findings live there); the OS leg "
-    "(Popen/execve/argv decoding) is tied by the real-child stream, not proved. $() / @$() / $[] inside arguments and p\"\" / b\"\" "
-    "literals are not covered."
+    "value`, `re`'s \\w classification, str(), os.fsdecode, os.path.expanduser's pwd lookups). Searched, not proved: the lexer's word "
+    "splitting and the execer's bare-line -> ![...] rewriting (nine open findings live there, each with a mechanism-specific classifier "
+    "confirmed by re-running the command with the trigger removed), Lexer.split for @$() and $() as an argument (tied-only stream), the OS "
+    "leg (Popen/execve/argv decoding: real-child stream). Not covered: p\"\" / b\"\" literals, ${...} and $[...] inside arguments, redirect "
+    "tuples in resolve_args_list, lines that are also valid Python (their Python / subprocess decision is C02 / C03: written as ![...] here)."
 )
 
 FSTR_KEEPS_RAW = [False]  # set by translate(): does FStringRules.p_fstring_expr put `is_raw` on the node (then fr"…" is not expanded)
@@ -107,6 +109,8 @@ class Session:
 
         XSH.aliases["rec"] = _rec
         XSH.aliases["recu"] = unthreadable(_rec_unthreadable)
+        self.emit_text = ""
+        XSH.aliases["emit"] = lambda args, stdin=None: self.emit_text  # a command whose standard output is `emit_text`
         # the file-system oracle: what glob answered for which (expanded) pattern
         import xonsh.tools as xt
 
@@ -144,8 +148,12 @@ class Session:
             os.unlink(self.out)
         except OSError:
             pass
+        import contextlib
+        import io
+
         try:
-            self.ex.exec(src, mode="exec", glbs=dict(glbs), locs=None, filename="<c04>")
+            with contextlib.redirect_stderr(io.StringIO()):  # (xonsh's own `command not found` chatter)
+                self.ex.exec(src, mode="exec", glbs=dict(glbs), locs=None, filename="<c04>")
         except BaseException as e:  # noqa: BLE001  (SystemExit / KeyboardInterrupt from the code under test included)
             if isinstance(e, KeyboardInterrupt):
                 raise
@@ -370,15 +378,20 @@ def word_ok(w):
     return True
 
 
-def macro_ok(t, closer=None):
-    """is this text acceptable after a macro `!` / inside `@!( )`: one line, brackets balanced, quotes paired, no comment, no continuation?"""
-    if "\n" in t or "\r" in t or "`" in t or re.search(r"(^|\s)#", t) or t.endswith("\\"):
+def macro_ok(t, closer=None, allow_nl=False):
+    """is this text acceptable after a macro `!` / inside `@!( )`: brackets balanced, quotes paired (and closed on their line), no comment,
+    no trailing continuation; newlines only where the command is written inside brackets (allow_nl)?"""
+    if ("\n" in t and not allow_nl) or "\r" in t or "`" in t or re.search(r"(^|\s)#", t) or t.endswith("\\"):
         return False
+    if "\'\'\'" in t or '"""' in t:
+        return False  # (the text is still tokenized: three quotes in a row open a triple-quoted literal)
     depth = []
     pairs = {")": "(", "]": "[", "}": "{"}
     inq = None
     esc = False
     for c in t:
+        if inq and c == "\n":
+            return False
         if inq:
             # (the text is still TOKENIZED: inside a quoted stretch a backslash protects the next character)
             if esc:
@@ -388,6 +401,8 @@ def macro_ok(t, closer=None):
             elif c == inq:
                 inq = None
             continue
+        if c == "\n" and inq:
+            return False
         if c in "'\"":
             inq = c
         elif c in "([{":
@@ -436,6 +451,24 @@ def gen_macro_text(rng, closer, lb=False):
     if rng.random() < 0.3:
         t = " " * rng.randint(0, 3) + t + " " * rng.randint(0, 3)
     return t
+
+
+def multiline_macro(rng, t):
+    """the same macro text continued over two or three physical lines (only possible where the command is written inside brackets):
+    some blanks outside quotes become newline + indentation"""
+    spots, inq = [], None
+    for i, c in enumerate(t):
+        if inq:
+            inq = None if c == inq else inq
+        elif c in "'\"":
+            inq = c
+        elif c == " " and 0 < i < len(t) - 1:
+            spots.append(i)
+    if not spots:
+        return t + "\n" + " " * rng.randint(0, 4) + rng.choice(["more", "b c", "$XV_A *", "x  y"])
+    for i in sorted(rng.sample(spots, min(len(spots), rng.choice([1, 1, 2]))), reverse=True):
+        t = t[:i] + "\n" + " " * rng.randint(0, 6) + t[i + 1:]
+    return t if macro_ok(t, allow_nl=True) else t.replace("\n", " ")
 
 
 def gen_pyval(rng, allow_lone=True, nul=False):
@@ -820,6 +853,17 @@ def degarbled_atoms(atoms):
     return out
 
 
+def first_word_text(atoms):
+    if not atoms:
+        return ""
+    a = atoms[0]
+    if a["k"] == "word":
+        return uncodes(a["t"])
+    if a["k"] == "adj" and a["parts"][0][0] == "t":
+        return uncodes(a["parts"][0][1])
+    return ""
+
+
 def word_texts(atoms):
     return [uncodes(a["t"]) for a in atoms if a["k"] == "word"] + [uncodes(p[1]) for a in atoms if a["k"] == "adj" for p in a["parts"] if p[0] == "t"]
 
@@ -948,13 +992,15 @@ def run_command(ctx, ses, stream, idx, atoms, bang, cmd, form, note=None, sep=No
                 key = "macro-text-cut-at-line-boundary"
             elif not FSTR_KEEPS_RAW[0] and any(a["k"] == "lit" and a["raw"] and a["f"] and has_special(lit_value(a)) for a in atoms):
                 key = "raw-fstring-expanded"
-        if key is None and form == "bare" and (source_has_raw(src, LB) or re.search(r"\\\r?\n", src)) and not lb_in_macro:
+        if key is None and form == "bare" and (source_has_raw(src, LB) or ("\n" in src and "\\" in src)) and not lb_in_macro:
             # a bare-line finding only when the same command inside ![ ] delivers exactly what is wanted: the argument machinery is
             # right, the execer's line rewriting is at fault
             if rerun("![", " "):
                 key = "bare-line-splitlines-breaks-literal" if source_has_raw(src, LB) else "bare-line-continuation-inside-literal"
         if key is None and form == "bare" and any("#" in t[1:] for t in word_texts(atoms) + macro_texts(atoms, bang)) and rerun("![", " "):
             key = "bare-line-hash-inside-word"
+        if key is None and form == "bare" and re.search(r"[,:=]", first_word_text(atoms)) and rerun("![", " "):
+            key = "bare-line-first-word-python-punctuation"
         if key is None and form == "bare" and src.rstrip(" \t")[-1:].isspace() and rerun("![", " "):
             key = "bare-line-trailing-unicode-space"
         if key is None and form == "bare" and any(re.search(r";|&&|\|\|", t) for t in macro_texts(atoms, bang)) and rerun("![", " "):
@@ -979,6 +1025,22 @@ def run_command(ctx, ses, stream, idx, atoms, bang, cmd, form, note=None, sep=No
                     atoms2.append(a)
             if hit and rerun(form, sep, atoms2):
                 key = "raw-fstring-backslash-handling"
+        if key is None:
+            import copy
+
+            hit, atoms2 = False, []
+            for a in atoms:
+                a2 = a
+                if a["k"] == "lit" and a["raw"] and a["q"] in ("s1", "d1"):
+                    a2 = copy.deepcopy(a)
+                    for p in a2["parts"]:
+                        if p["p"] == "t" and re.search(r"\\\n[ \t]*#", uncodes(p["body"])):
+                            v = re.sub(r"(\\\n[ \t]*)#", r"\1z", uncodes(p["value"]))
+                            p["value"] = p["body"] = codes(v)
+                            hit = True
+                atoms2.append(a2)
+            if hit and rerun(form, sep, atoms2):
+                key = "continuation-comment-strip-inside-literal"
         if key is None and lexer_unexpected(src) and rerun(form, sep, degarbled_atoms(atoms), None if bang is None else degarble(bang)):
             # the same command with those characters replaced by a letter has no unexplained failure
             key = "word-with-nonidentifier-wordchar-garbled"
@@ -987,7 +1049,8 @@ def run_command(ctx, ses, stream, idx, atoms, bang, cmd, form, note=None, sep=No
 
     outside_model = ("bare-line-splitlines-breaks-literal", "bare-line-continuation-inside-literal", "whitespace-run-before-untokenizable-char",
                      "bare-line-macro-text-chain-token", "bare-line-hash-inside-word", "bare-line-trailing-unicode-space",
-                     "word-with-nonidentifier-wordchar-garbled", "raw-fstring-backslash-handling")
+                     "bare-line-first-word-python-punctuation",
+                     "word-with-nonidentifier-wordchar-garbled", "raw-fstring-backslash-handling", "continuation-comment-strip-inside-literal")
     if res[0] != "ok":
         key = fail({"exception": res[1], "message": res[2]}, "a well-formed command was not run: its arguments never arrived")
         if m_mine != "crash" and key not in outside_model:
@@ -1063,7 +1126,7 @@ def atom_variants(q, a):
     k = a["k"]
     if k in ("word", "macroat"):
         for t in _shorter_codes(a["t"]):
-            if word_ok(uncodes(t)) if k == "word" else macro_ok(uncodes(t)):
+            if word_ok(uncodes(t)) if k == "word" else macro_ok(uncodes(t), allow_nl=True):
                 yield dict(a, t=t)
     elif k == "lit":
         for i, p in enumerate(a["parts"]):
@@ -1099,7 +1162,7 @@ def atom_variants(q, a):
         for i, p in enumerate(ps):
             if p[0] in ("t", "m"):
                 for t in _shorter_codes(p[1]):
-                    if (word_ok(uncodes(t)) and not re.search(r"['\"]", uncodes(t))) if p[0] == "t" else macro_ok(uncodes(t)):
+                    if (word_ok(uncodes(t)) and not re.search(r"['\"]", uncodes(t))) if p[0] == "t" else macro_ok(uncodes(t), allow_nl=True):
                         yield dict(a, parts=ps[:i] + [[p[0], t] + p[2:]] + ps[i + 1:])
             elif p[1][0] == "str":
                 for t in _shorter_codes(p[1][1]):
@@ -1139,7 +1202,7 @@ def shrink_command(ctx, ses, atoms, bang, cmd, form, sep, want_key=None, budget=
                 continue
             for t in _shorter_codes(codes(bang)):
                 budget -= 1
-                if macro_ok(uncodes(t)) and still(atoms, uncodes(t), sep):
+                if macro_ok(uncodes(t), allow_nl=form != "bare") and still(atoms, uncodes(t), sep):
                     bang, changed = uncodes(t), True
                     break
             if changed:
@@ -1173,6 +1236,17 @@ def gen_command(ctx, ses, popen_ok, kinds, max_atoms=5, allow_bang=True):
             bang = re.sub(r"[\[\](){}]", "", bang)
             if not macro_ok(bang):
                 bang = gen_macro_text(rng, None)
+    if form != "bare":
+        # inside brackets a macro text may run over several physical lines
+        if bang is not None and rng.random() < 0.4:
+            bang = multiline_macro(rng, bang)
+        for a in atoms:
+            if a["k"] == "macroat" and rng.random() < 0.3:
+                a["t"] = codes(multiline_macro(rng, uncodes(a["t"])))
+            elif a["k"] == "adj":
+                for p in a["parts"]:
+                    if p[0] == "m" and rng.random() < 0.3:
+                        p[1] = codes(multiline_macro(rng, uncodes(p[1])))
     if bang is not None and any(extend_atom(a) for a in atoms) and rng.random() < 0.95:
         bang = None  # (a macro tail after an extend atom is the known parser crash: keep a few, not hundreds)
     if bang is None and not atoms:
@@ -1261,11 +1335,81 @@ def stream_known_mechanisms(ctx, ses, n, name="line-boundary-characters"):
             form = "!["
             t = gen_macro_text(rng, "]", lb=True)
             t = re.sub(r"[\[\](){}]", "", t)
+            if not macro_ok(t.strip(" ")):
+                continue  # (removing the brackets can leave a ` #` comment or an unpaired quote behind)
             if rng.random() < 0.5:
                 atoms, bang = [{"k": "word", "t": codes("w")}], t
             else:
                 atoms = [{"k": "macroat", "t": codes(t)}, {"k": "word", "t": codes("z")}]
         run_command(ctx, ses, name, i, atoms, bang, "rec", form)
+
+
+def stream_captured(ctx, ses, n, name="captured-output-as-argument"):
+    ctx.stream_rule(
+        name,
+        "`rec pre @$(emit) post` and `rec pre $(emit) post` where `emit` is a callable alias printing a generated text (tokens with * $NAME ~ "
+        "quotes ; | > separated by blanks / tabs / newlines, empty output, no final newline, CRLF): @$() must deliver the white-space separated "
+        "tokens of the output verbatim (compared with str.split for plain tokens and with the session's own Lexer.split otherwise), $() exactly "
+        "one argument holding the output; nothing globbed or expanded. Tied only (the captured pipeline and Lexer.split are not modelled); "
+        "non-trivial = the output has a glob / expansion character or a quote",
+    )
+    rng = ctx.rng
+    toks = ["a", "b1", "*", "*.py", "p*", "$XV_A", "$XV_STAR", "~", "~/x", "a=~", "-x", "--k=v", "\u00e9", "\U0001d11e", "x;y", "|", ">", "&&", "[ab]", "?", "a\\b", "$(ls)", "@(1)", "{}", "!"]
+    for i in range(n):
+        if ctx.enough_failures():
+            break
+        lines = []
+        quoted = edge = False
+        for _ in range(rng.choice([0, 1, 1, 1, 2, 3])):
+            ws = []
+            for _ in range(rng.randint(0, 4)):
+                if rng.random() < 0.08:
+                    ws.append(rng.choice(['"b c"', "'q  r'", '"$XV_A"', "'*'"]))
+                    quoted = True
+                else:
+                    ws.append(rng.choice(toks))
+            line = rng.choice([" ", " ", "  ", "\t"]).join(ws)
+            if rng.random() < 0.04 and ws:
+                line = rng.choice([" ", "  ", "\t"]) + line if rng.random() < 0.5 else line + rng.choice([" ", "  "])
+                edge = True
+            lines.append(line)
+        nl = rng.choice(["\n", "\n", "\n", "\r\n"])
+        text = nl.join(lines) + (nl if lines and rng.random() < 0.85 else "")
+        check_captured(ctx, ses, name, i, text, quoted, edge)
+
+
+def check_captured(ctx, ses, name, i, text, quoted, edge):
+    ses.emit_text = text
+    plain = text.split()
+    for op in ("@$(", "$("):
+        src = f"rec pre {op}emit) post"
+        r = ses.run(src + "\n", {})
+        case = {"stream": name, "source": src, "emit_output": text}
+        ctx.case(name, (i, op, text), any(c in text for c in "*$~'\""), {"source": src, "emit_output": text[:80]})
+        if r[0] != "ok" or len(r[1]) != 1:
+            ctx.spec_failure(case, {"result": r[:2]}, "a command with a captured-output argument did not run exactly once", None)
+            continue
+        got = r[1][0]
+        if op == "$(":
+            norm = text.replace("\r\n", "\n").rstrip("\n")
+            if not (len(got) == 3 and got[0] == "pre" and got[2] == "post" and got[1].replace("\r\n", "\n").rstrip("\n") == norm):
+                ctx.spec_failure(case, {"argv": got}, "$() as an argument is not exactly one argument holding the captured output", None)
+            continue
+        lexed = [t for l in text.splitlines() for t in ses.XSH.execer.parser.lexer.split(l)]
+        want = ["pre"] + (plain if not quoted else [("&&" if t == "and" else "||" if t == "or" else t.strip()) for t in lexed if t.strip()]) + ["post"]
+        if got != want:
+            key = None
+            mid = [t for t in got[1:-1] if t.strip()]
+            ref = plain if not quoted else [t.strip() for t in lexed if t.strip()]
+            # (the keyword is one character longer than the operator, so the next token may also be glued on: compare without blanks)
+            explained = "".join(g.strip() for g in mid) == "".join({"&&": "and", "||": "or"}.get(r, r) for r in ref)
+            if got == ["pre"] + lexed + ["post"] and explained and (edge or "&&" in plain or "||" in plain):
+                # exactly what the session's own Lexer.split answers, and the only differences are its known artefacts
+                key = "captured-inject-lexer-split-artifacts"
+            elif got == ["pre"] + lexed + ["post"] and any(ws_errortoken(l) for l in text.splitlines()) and \
+                    "".join("".join(g.split()) for g in mid) == "".join({"&&": "and", "||": "or"}.get(r, r) for r in ref):
+                key = "whitespace-run-before-untokenizable-char"  # the same tokenizer artefact, met by Lexer.split
+            ctx.spec_failure(case, {"argv": got, "tokens_of_the_output": want[1:-1]}, "@$() did not deliver the white-space separated tokens of the captured output verbatim", key)
 
 
 # ============================================================================ direct function correspondences
@@ -1400,6 +1544,12 @@ def replay_known(ctx, ses):
     for f in ctx.known:
         w = f["witness"]
         before = len(ctx.spec_failures)
+        if "emit_output" in w:
+            t = w["emit_output"]
+            check_captured(ctx, ses, "known-witness", f["key"], t, False, t != t.strip() or any(l != l.strip() for l in t.splitlines()))
+            mine = ctx.spec_failures[before:]
+            ctx.replayed(f["key"], any(sf["key"] == f["key"] for sf in mine), mine[0]["observed"] if mine else None)
+            continue
         run_command(ctx, ses, "known-witness", f["key"], w["atoms"], w.get("bang"), w.get("cmd", "rec"), w["form"], note=f["key"], sep=w.get("sep", " "))
         mine = [sf for sf in ctx.spec_failures[before:]]
         still = any(sf["key"] == f["key"] for sf in mine)
@@ -1442,6 +1592,7 @@ def run(ctx):
         stream_commands(ctx, ses, ctx.n(7000, 90000))
         stream_child(ctx, ses, ctx.n(500, 7000))
         stream_known_mechanisms(ctx, ses, ctx.n(150, 2000))
+        stream_captured(ctx, ses, ctx.n(150, 2500))
     finally:
         ses.close()
 
@@ -1460,12 +1611,16 @@ def search(ctx, reason):
 def replay(ctx, path):
     r = json.loads(open(path).read())
     c = r["case"]
-    if "atoms" not in c or "form" not in c:
+    if "emit_output" not in c and ("atoms" not in c or "form" not in c):
         print("this replay names a function-level case; re-run ./check C04 with the same seed")
         return common.EXIT_INFRA
     ses = Session()
     try:
-        got = run_command(ctx, ses, "replay", 0, c["atoms"], c.get("bang"), c.get("cmd", "rec"), c["form"])
+        if "emit_output" in c:
+            t = c["emit_output"]
+            got = check_captured(ctx, ses, "replay", 0, t, any(q in t for q in "'\""), any(l != l.strip() for l in t.splitlines()))
+        else:
+            got = run_command(ctx, ses, "replay", 0, c["atoms"], c.get("bang"), c.get("cmd", "rec"), c["form"], sep=c.get("sep"))
     finally:
         ses.close()
     print("source:", c.get("source"))
